@@ -1,0 +1,33 @@
+//go:build verif
+
+// Contracts for the deductive verifier in /verif (govc). Comment-only.
+
+package stage
+
+//@ stable baseStage.execPool baseStage.ctx
+//@ # calls(f) / lastnonnil(f): ghost trace of invocations of the function value f
+
+//@ # body of a stage run: exactly one of the two handlers is invoked, an error goes to errHandle
+//@ func baseStage.Execute$1
+//@   prop C19
+//@   requires errHandle != nil && completeHandle != nil && errHandle != completeHandle && stage != nil
+//@   modifies *
+//@   ensures[exactly_one_handler] calls(errHandle) + calls(completeHandle) == old(calls(errHandle)) + old(calls(completeHandle)) + 1
+//@   ensures[error_goes_to_errHandle] calls(errHandle) == old(calls(errHandle)) + 1 ==> lastnonnil(errHandle)
+//@ end
+//@ func baseStage.execute
+//@   prop C19
+//@   modifies *
+//@ end
+//@ func baseStage.IsAsync
+//@   prop C19
+//@   ensures result == (stage.execPool != nil && stage.ctx != nil)
+//@ end
+//@ func baseStage.Execute
+//@   prop C19
+//@   requires errHandle != nil && completeHandle != nil && errHandle != completeHandle
+//@   modifies *
+//@   ensures[sync_exactly_one_handler] !(stage.execPool != nil && stage.ctx != nil) ==> calls(errHandle) + calls(completeHandle) == old(calls(errHandle)) + old(calls(completeHandle)) + 1
+//@   ensures[async_task_submitted] (stage.execPool != nil && stage.ctx != nil) ==> (stage.execPool.lastTask != nil && stage.execPool.lastTask.handle != nil)
+//@   ensures[async_panic_routed_to_errHandle] (stage.execPool != nil && stage.ctx != nil) ==> stage.execPool.lastTask.panicHandle == errHandle
+//@ end
